@@ -1,6 +1,7 @@
 CONSTANTS
   NSet = {1, 2, 3, 5, 7, 9}
   MSet = {2, 3, 4, 5}
+  TailMSet = {4, 5, 6, 7}
   RSet = {1, 2, 3}
   FamOpts <- OptsOrder
 INIT FInit
